@@ -295,10 +295,29 @@ def r13_4_5(ctx: Ctx) -> None:
            "per profile the hit with the maximum score is kept, remembered with its index in the gene's hit list", form=form)
     srt = [c for c in calls(func) if call_name(c) == "sorted"]
     ok = False
-    if len(srt) == 1 and isinstance(srt[0].args[0], ast.Name) and kwarg(srt[0], "key") is None:
-        srcs = bound_from(func, srt[0].args[0].id)
-        ok = len(srcs) == 1 and "query_scores.values()" in txt(srcs[0]) and \
-            any(isinstance(n, ast.Slice) and txt(n.upper) == "2" for n in ast.walk(srcs[0]))
+    if len(srt) == 1 and srt[0].args and len(stores) == 1:
+        table = txt(stores[0].targets[0].value)
+        stmt = next(a for a in _ancestors(srt[0]) if isinstance(a, ast.stmt))
+        source = inline_reaching(cfg, stmt, srt[0].args[0], keep={table})
+        if isinstance(source, ast.Call) and call_name(source) in ("set", "list", "tuple") and len(source.args) == 1:
+            source = source.args[0]
+        leads = False  # do the sorted elements lead with the (unique) index the table remembers first?
+        if txt(source) == f"{table}.values()":
+            leads = True
+        elif isinstance(source, (ast.GeneratorExp, ast.ListComp, ast.SetComp)) and len(source.generators) == 1 \
+                and txt(source.generators[0].iter) == f"{table}.values()" and not source.generators[0].ifs:
+            var, elt = source.generators[0].target, source.elt
+            if isinstance(var, ast.Name):
+                leads = txt(elt) == var.id or (isinstance(elt, ast.Subscript) and txt(elt.value) == var.id and isinstance(elt.slice, ast.Slice)
+                                               and elt.slice.lower is None and elt.slice.step is None)
+            elif isinstance(var, ast.Tuple) and isinstance(elt, ast.Tuple) and elt.elts:
+                leads = txt(elt.elts[0]) == txt(var.elts[0])
+        key = kwarg(srt[0], "key")
+        if key is None:
+            ok = leads and kwarg(srt[0], "reverse") is None
+        else:
+            kf = key_function(ctx.repo, CP, func, key)
+            ok = leads and kf is not None and txt(kf[1]) == f"{kf[0]}[0]" and kwarg(srt[0], "reverse") is None
     ctx.ob("R13.4", CP, srt[0] if srt else func, "filter_result_multiple", "positional order restored", ok,
            "the survivors are put back in their original order by sorting (index, hit) pairs, the unique index leading", form="")
     # R13.3 best-of-group does not start from an arbitrary set element
@@ -405,7 +424,10 @@ def r13_4_5(ctx: Ctx) -> None:
            "the grouping sweep runs over hits sorted by start (ties may be broken by further keys)", form=str(srt))
     rk = ctx.fn(HMMER, "remove_overlapping.ranking_stats")
     ret = [r for r in walk_local(rk) if isinstance(r, ast.Return)]
-    ok = len(ret) == 1 and txt(ret[0].value) == "(normalised[hit], 1 / len(hit), hit.protein_start, hit.identifier)"
+    param = rk.args.args[0].arg if rk.args.args else "hit"
+    want = [f"normalised[{param}]", f"1 / len({param})", f"{param}.protein_start", f"{param}.identifier"]
+    value = inline_reaching(CFG(rk), ret[0], ret[0].value) if len(ret) == 1 else None
+    ok = isinstance(value, ast.Tuple) and [txt(e) for e in value.elts] == want
     ctx.ob("R13.5", HMMER, rk, "remove_overlapping.ranking_stats", "ranking key", ok,
            "hits compete by (normalised score, length, start, identifier): equal keys mean interchangeable hits", form="")
     ret_sorted = [r for r in walk_local(func) if isinstance(r, ast.Return) and r.value is not None and "sorted(cleaned" in txt(r.value)]
